@@ -454,7 +454,9 @@ def run(ctx):
         "quantity the spec knows exactly (cos^2 with sign, sin^2)",
         "domain: lengths 1..100 A, angles 8..170 degrees, (abc/V)^2 < %d" % COND_MAX,
     ]
-    ctx.notes["slack"] = "relative 1e-9 x (abc/V)^2, (abc/V)^2 computed exactly by the spec from the Gram matrix"
+    ctx.notes["slack"] = ("relative 2^-30 x (floor((abc/V)^2) + 1), (abc/V)^2 = G11 G22 G33 / det G computed exactly by "
+                          "the spec; products direct x inverse additionally x kI >= sqrt(tr G tr G*); measured float "
+                          "noise on the unchanged tree <= 3e-15 x (abc/V)^2 in every clause")
     ctx.notes["scale"] = "observed floats shipped as round(x * 2^%d)" % K
     ctx.notes["routes"] = sorted({r for rec in recipes for r in rec["routes"]})
     ctx.notes["cases"] = {}
